@@ -16,6 +16,7 @@ Section Single.
   Variable acc : typ -> member -> bool -> bool.
   Variable narrow : typ -> member -> list member.
   Variable posof : var -> posn.
+  Variable isany : member -> bool.
 
   (* a member that matches is not changed by the positive narrowing
      (false only for an Any argument tested with exclude_any=False) *)
@@ -136,35 +137,35 @@ Section Single.
 
   Definition stmt_ok (s : stmt) : Prop :=
     forall rho, rep rho ->
-      exists ft, eval_stmt acc narrow posof rho s =
+      exists ft, eval_stmt acc narrow posof isany rho s =
         (wrap (fst (sem_stmt acc posof sigma s)), snd (sem_stmt acc posof sigma s), ft) /\ ft_cons ft.
 
   Definition block_ok (b : block) : Prop :=
     forall rho possible narrowed, rep rho -> consistent narrowed ->
-      exists ft, eval_block acc narrow posof rho b possible narrowed =
+      exists ft, eval_block acc narrow posof isany rho b possible narrowed =
         (map Some possible ++ wrap (fst (sem_block acc posof sigma b)), snd (sem_block acc posof sigma b), ft) /\ ft_cons ft.
 
   Lemma eval_stmt_if : forall rho c body orelse,
-    eval_stmt acc narrow posof rho (SIf c body orelse) =
+    eval_stmt acc narrow posof isany rho (SIf c body orelse) =
     match eval_cond acc narrow posof rho c with
     | (Some l, Some r) =>
-        let '(r1, e1, f1) := eval_block acc narrow posof (l ++ rho) body [] [] in
-        let '(r2, e2, f2) := eval_block acc narrow posof (r ++ rho) orelse [] [] in
+        let '(r1, e1, f1) := eval_block acc narrow posof isany (l ++ rho) body [] [] in
+        let '(r2, e2, f2) := eval_block acc narrow posof isany (r ++ rho) orelse [] [] in
         (r1 ++ r2, e1 ++ e2, ft_unite (ft_join l f1) (ft_join r f2))
     | (Some l, None) =>
-        let '(r1, e1, f1) := eval_block acc narrow posof (l ++ rho) body [] [] in (r1, e1, ft_join l f1)
+        let '(r1, e1, f1) := eval_block acc narrow posof isany (l ++ rho) body [] [] in (r1, e1, ft_join l f1)
     | (None, Some r) =>
-        let '(r2, e2, f2) := eval_block acc narrow posof (r ++ rho) orelse [] [] in (r2, e2, ft_join r f2)
+        let '(r2, e2, f2) := eval_block acc narrow posof isany (r ++ rho) orelse [] [] in (r2, e2, ft_join r f2)
     | (None, None) => ([None], [], Some [])
     end.
   Proof. reflexivity. Qed.
   Lemma eval_block_cons : forall rho s b possible narrowed,
-    eval_block acc narrow posof rho (BCons s b) possible narrowed =
-    let '(res, e, ft) := eval_stmt acc narrow posof rho s in
+    eval_block acc narrow posof isany rho (BCons s b) possible narrowed =
+    let '(res, e, ft) := eval_stmt acc narrow posof isany rho s in
     if forallb is_some res then (map Some possible ++ res, e, None)
     else
-      let f := match ft with Some f => if is_nil (somes res) then [] else only_removals rho f | None => [] end in
-      let '(res', e', ft') := eval_block acc narrow posof (f ++ rho) b (possible ++ somes res) (f ++ narrowed) in
+      let f := match ft with Some f => if is_nil (somes res) then [] else only_removals isany rho f | None => [] end in
+      let '(res', e', ft') := eval_block acc narrow posof isany (f ++ rho) b (possible ++ somes res) (f ++ narrowed) in
       (res', e ++ e', ft').
   Proof. reflexivity. Qed.
   Lemma sem_stmt_if : forall c body orelse,
@@ -200,7 +201,7 @@ Section Single.
       destruct (sem_stmt acc posof sigma s) as [[x|] e]; cbn [fst snd wrap].
       + eexists. split; [reflexivity|]. exact I.
       + cbn [forallb is_some andb somes]. rewrite app_nil_r.
-        set (f := match ft with Some f => if @is_nil rtype [] then [] else only_removals rho f | None => [] end).
+        set (f := match ft with Some f => if @is_nil rtype [] then [] else only_removals isany rho f | None => [] end).
         assert (Hcf : consistent f) by (destruct ft; apply consistent_nil).
         destruct (IHb (f ++ rho) possible (f ++ narrowed) (rep_app _ _ Hcf Hr) (consistent_app _ _ Hcf Hn)) as [ft' [Eb Hf']].
         rewrite Eb. destruct (sem_block acc posof sigma b) as [r' e']. cbn [fst snd].
@@ -209,7 +210,7 @@ Section Single.
 
   Theorem evaluate_single : forall rho body dflt,
     rep rho ->
-    evaluate acc narrow posof rho body dflt = sem_evaluate acc posof sigma body dflt.
+    evaluate acc narrow posof isany rho body dflt = sem_evaluate acc posof sigma body dflt.
   Proof.
     intros rho body dflt Hr. unfold evaluate, sem_evaluate.
     destruct (proj2 block_single_all body rho [] [] Hr consistent_nil) as [ft [E _]]. rewrite E.
